@@ -24,6 +24,7 @@ PROPERTY = "C04"
 LEAN_MODULE = "CrCube.Props.C04"
 THEOREMS = [
     "CrCube.C04.gauntlet_drops_stale",
+    "CrCube.C04.transform_replaces_view",
     "CrCube.C04.subtotal_count",
     "CrCube.C04.subtotal_count_col",
     "CrCube.C04.subtotal_count_block",
@@ -58,6 +59,8 @@ THEOREMS = [
     "CrCube.C04.cellwise_cols",
     "CrCube.C04.merge_equiv_proportions_rows",
     "CrCube.C04.merge_equiv_proportions_cols",
+    "CrCube.C04.merge_equiv_rows_catXmr",
+    "CrCube.C04.merge_equiv_cols_mrXcat",
     "CrCube.C04.merge_equiv_inter_count",
     "CrCube.C04.merged_count_respondents",
     "CrCube.C04.merge_equiv_respondents",
@@ -68,10 +71,13 @@ THEOREMS = [
 RULE = ("random designs: rows/cols in {cat, cat_date, ca(items x cats), mr}, optional cat table dimension, "
         "missing categories anywhere; 0-3 insertions per cat-like dimension (sums, differences, 1-1 and multi-term "
         "differences incl. first-element subtrahend, pure-negative, overlapping, duplicate, stale / missing / "
-        "string-spelt ids, gauntlet rejects), view-level and/or transform-level; random weighted surveys; valid-count "
-        "and mean/stddev/median/sum measures; plus an exhaustive scope (all lists of <=2 insertions over <=4 "
-        "categories with addend/subtrahend subsets incl. a stale id, either dimension). Non-trivial = at least one "
-        "surviving insertion with a non-zero inserted value; distinct = (kinds, subtotal idx lists, counts) key")
+        "string-spelt ids, gauntlet rejects), view-level and/or transform-level (incl. an empty transform list and "
+        "insertions on array dimensions, which must be ignored); random weighted surveys; valid-count and "
+        "mean/stddev/median/sum measures; strands. Exhaustive scope: all lists of <=2 insertions over n<=4 categories "
+        "(ids 1..n + one stale id, addend/subtrahend subsets of size <=2) applied to rows AND columns of an n x n "
+        "table: complete in the thorough tier (~33 000 cases), all single insertions + a sample of the pairs in the "
+        "quick tier. Non-trivial = at least one surviving insertion with a non-zero inserted value; distinct = (kinds, "
+        "subtotal idx lists, counts) key")
 ASSUMPTIONS = [
     "Spec.cubeOf is the back end's tabulation (C01)",
     "merge equivalence is demanded on every cell of a subtotal without subtrahends EXCEPT cells that also lie in a "
@@ -185,8 +191,15 @@ def gen_slice_case(rng, kinds=None, table=None, small=False):
     survey = gen.gen_survey(rng, vars_, n_resp=rng.randint(0, 12) if small else None, weighted=weighted)
     dv = S.dim_vars(vars_)
     (rv, rrole), (cv, crole) = dv[-2], dv[-1]
-    ins = {"rows": _ins_for(rng, rv) if rrole == "cat" else {"view": None, "transform": None},
-           "cols": _ins_for(rng, cv) if crole == "cat" else {"view": None, "transform": None}}
+    def arr_ins(v):
+        # a well-formed subtotal dict on an MR / CA-items dimension must be IGNORED (array dims have no subtotals)
+        if rng.random() < 0.25:
+            ids = [it["id"] for it in v.items]
+            return {"view": None, "transform": [{"function": "subtotal", "args": rng.sample(ids, min(len(ids), 2)),
+                                                 "anchor": "top", "name": "arr-sub", "id": 1}]}
+        return {"view": None, "transform": None}
+    ins = {"rows": _ins_for(rng, rv) if rrole == "cat" else arr_ins(rv),
+           "cols": _ins_for(rng, cv) if crole == "cat" else arr_ins(cv)}
     valid = rng.choice(["none", "none", "none", "both", "unweighted"])
     subset = [i for i in range(len(survey)) if rng.random() < 0.7] if valid != "none" else []
     ex, sums = _extras(rng, vars_, survey)
@@ -224,11 +237,14 @@ def gen_strand_case(rng):
 
 
 def _exhaustive_cases(rng, quick):
-    """all insertion lists of <= 2 subtotals over n <= 4 categories, addend / subtrahend subsets (incl. one stale
-    id), on rows, on columns and on both, over ONE fixed small survey per n; quick tier: n <= 3 on both dims and
-    a deterministic 1/7 sample of n = 4."""
+    """ALL insertion lists of <= 2 subtotals over n <= 4 categories (ids 1..n plus the stale id 99), every addend /
+    subtrahend subset of size <= 2 (not both of size 2), the SAME list applied to the rows and to the columns of one
+    fixed n x n survey (so every inserted row, inserted column and every pair of them as an intersection occurs).
+    thorough tier: everything (about 33 000 cases); quick tier: all single insertions and a deterministic sample of
+    the pairs (the evidence then says exhaustive = false)."""
     cases = []
-    for n in ([2, 3, 4]):
+    complete = True
+    for n in (2, 3, 4):
         rv = gen.Var("cat", "v0", cats=[{"id": i + 1, "missing": False, "name": "r%d" % i, "numeric_value": i}
                                          for i in range(n)])
         cv = gen.Var("cat_date" if n == 3 else "cat", "v1",
@@ -258,38 +274,31 @@ def _exhaustive_cases(rng, quick):
         pairs = [(a, b) for a in singles for b in singles]
         step = 1
         if quick:
-            step = {2: 3, 3: 29, 4: 211}[n]
-        elif n == 4:
-            step = 13
-        elif n == 3:
-            step = 3
+            step = {2: 5, 3: 41, 4: 173}[n]
+            complete = False
         for a, b in pairs[::step]:
             lists.append([mk(a[0], a[1], 0), mk(b[0], b[1], 1)])
-        if quick and n == 4:
-            lists = lists[::7]
-        for li, lst in enumerate(lists):
-            where = ("rows", "cols", "both")[li % 3]
-            ins = {"rows": {"view": None, "transform": lst if where in ("rows", "both") else None},
-                   "cols": {"view": None, "transform": (lists[(li * 7 + 3) % len(lists)] if where == "both" else lst)
-                            if where in ("cols", "both") else None}}
+        for lst in lists:
+            ins = {"rows": {"view": None, "transform": lst}, "cols": {"view": None, "transform": lst}}
             cases.append({"mode": "slice", "vars": [rv.to_json(), cv.to_json()],
                           "survey": gen.survey_to_json(survey), "weighted": True, "ins": ins, "valid": "none",
                           "valid_subset": [], "extras": {}, "sums": None, "population": None, "blk": None, "k": 0,
                           "exh": True})
-    return cases
+    return cases, complete
 
 
 def generate(ctx):
     rng = ctx.rng
     cases = []
-    for _ in range(ctx.n(110, 2500)):
+    for _ in range(ctx.n(320, 3000)):
         cases.append(gen_slice_case(rng))
-    for _ in range(ctx.n(35, 600)):
+    for _ in range(ctx.n(160, 1200)):
         cases.append(gen_strand_case(rng))
-    ex = _exhaustive_cases(rng, ctx.quick)
+    ex, complete = _exhaustive_cases(rng, ctx.quick)
     cases.extend(ex)
     ctx.count("exhaustive_cases", len(ex))
-    ctx.count("exhaustive_done", 1)
+    if complete:
+        ctx.count("exhaustive_done", 1)
     return cases
 
 
@@ -356,6 +365,8 @@ def build_cube(case, vars_, survey, ins, arrays=None, extras=None, sums=None):
     for key, (var, role), tkey in slots:
         spec = ins.get(key) or {}
         if role != "cat":
+            if spec.get("transform") is not None:
+                tr[tkey] = {"insertions": copy.deepcopy(spec["transform"])}
             continue
         if spec.get("view") is not None:
             S.attach_view(resp, vars_, vars_.index(var), role, spec["view"])
@@ -375,6 +386,10 @@ def _lean_dims(case, vars_):
         spec = case["ins"].get(key) or {}
         out[key] = S.lean_dim(var if role == "cat" else None, spec.get("view"), spec.get("transform"))
     return out
+
+
+def _plain_catxcat(vars_):
+    return len(vars_) == 2 and all(not v.is_array for v in vars_)
 
 
 def lean_ops(case):
@@ -401,6 +416,9 @@ def lean_ops(case):
             ops.append({"op": "wavediff", "bases": b["base"], "counts": b["counts"], "nr": nr, "nc": nc,
                         "defCols": b["defCols"], "defRows": b["defRows"], "rows": dims["rows"],
                         "cols": dims["cols"]})
+        if _plain_catxcat(vars_):
+            ops.append({"op": "merge_cube", "vars": lv, "wdata": [gen.frac_str(x) for x in wd],
+                        "rows": dims["rows"], "cols": dims["cols"]})
     else:
         ops.append({"op": "strand_sub", "vars": lv, "wdata": [gen.frac_str(x) for x in wd],
                     "udata": [gen.frac_str(x) for x in ud], "rows": dims["rows"], "sums": sums_l})
@@ -740,7 +758,7 @@ def _eval_slice(case, louts, ctx):
 
     # ---- spec (c): merge oracle --------------------------------------------------------------
     if not findings or all(f["kind"] == "model" for f in findings):
-        _merge_oracle(case, vars_, survey, V, L, findings, ctx)
+        _merge_oracle(case, vars_, survey, V, L, findings, ctx, louts[-1] if _plain_catxcat(vars_) else None)
 
     key = None
     if key_vals:
@@ -759,7 +777,7 @@ def _rank_ok(sl):
     return bool(np.linalg.matrix_rank(a) >= 2)
 
 
-def _merge_oracle(case, vars_, survey, V, L, findings, ctx):
+def _merge_oracle(case, vars_, survey, V, L, findings, ctx, MC=None):
     """for every subtotal WITHOUT subtrahends (and at least one addend): merge its addends in the data, rerun."""
     dv = S.dim_vars(vars_)
     nrs, ncs = V.nrs, V.ncs
@@ -774,6 +792,8 @@ def _merge_oracle(case, vars_, survey, V, L, findings, ctx):
             if subsx or not adds or tuple(adds) in seen:
                 continue
             if n_done >= (2 if not case.get("exh") else 1):
+                return
+            if case.get("exh") and len(subs) > 1:
                 return
             seen.add(tuple(adds))
             n_done += 1
@@ -809,6 +829,8 @@ def _merge_oracle(case, vars_, survey, V, L, findings, ctx):
                 continue
             n_valid2 = len(nv.valid_cat_pos)
             merged_idx = n_valid2 - 1
+            if MC is not None:
+                _check_spec_merge(findings, ctx, MC["rows" if axis == 0 else "cols"][k], V2, merged_idx)
             rank_ok = _rank_ok(V.sl) and _rank_ok(sl2)
             names = list(MERGE_MATRIX) + (MERGE_MATRIX_RANK if rank_ok else [])
             if not rank_ok:
@@ -846,6 +868,36 @@ def _merge_oracle(case, vars_, survey, V, L, findings, ctx):
                     _finding(findings, "spec", "merge.%s" % name,
                              "%s subtotal %d (addends %r): subtotal shows %r, merged category shows %r"
                              % ("row" if axis == 0 else "column", k, subs[k][0], a[pa], b[pb]))
+
+
+def _check_spec_merge(findings, ctx, spec, V2, merged_idx):
+    """the Lean Spec's merged table (`mergeAxis`, right-hand side of the merge theorems) against the library's
+    BODY values on the merged survey: ties the theorems' merged table to 'merging the addends in the data'."""
+    if spec is None:
+        return
+    if spec["merged_pos"] != merged_idx:
+        raise common.HarnessFault("Spec mergedPos %r != harness merged index %r" % (spec["merged_pos"], merged_idx))
+    for name, key in (("counts", "counts"), ("row_weighted_bases", "row_bases"),
+                      ("column_weighted_bases", "column_bases"), ("table_weighted_bases", "table_bases")):
+        impl = V2.get(name)
+        if not isinstance(impl, list):
+            _finding(findings, "model", "oracle.spec-merge.%s" % name, repr(impl))
+            continue
+        want = common.model_to_float(spec[key])
+        got = []
+        for r in range(len(want)):
+            pr = V2.row_pos(False, r)
+            row = []
+            for c_ in range(len(want[0]) if want else 0):
+                pc = V2.col_pos(False, c_)
+                row.append(impl[pr][pc] if pr is not None and pc is not None else None)
+            got.append(row)
+        ok, where = common.deep_close(got, want)
+        if not ok:
+            _finding(findings, "model", "oracle.spec-merge.%s" % name,
+                     "library on the merged survey vs Lean Spec mergeAxis%s: %r vs %r" % (where, got, want))
+        else:
+            ctx.count("spec_merge_tables_equal")
 
 
 def _cross_positions(V, V2, axis):
